@@ -32,6 +32,7 @@ class SimBusyWait(Exception):
 
 
 _SPIN = {"t": None, "n": 0}
+SPIN_LIMIT = 300000
 
 
 # ---------------------------------------------------------------------------
@@ -372,8 +373,19 @@ class VirtualLoop(asyncio.BaseEventLoop):
         self._selector = _FakeSelector(self)
         self.net = net or NET
         self._clock_resolution = 1e-9
+        self._spin_t = None
+        self._spin_n = 0
 
     def time(self):
+        # called once per loop iteration: an iteration count without simulated time moving is a busy loop
+        if VT.now == self._spin_t:
+            self._spin_n += 1
+            if self._spin_n > SPIN_LIMIT:
+                self._spin_n = 0
+                raise SimBusyWait(f"the event loop ran {SPIN_LIMIT} iterations at one simulated instant")
+        else:
+            self._spin_t = VT.now
+            self._spin_n = 0
         return VT.now
 
     def _process_events(self, event_list):
@@ -629,12 +641,24 @@ if _trio is not None:
         def __init__(self):
             self.scope = None
             self.deadlocked = False
+            self.busy = False
             self.jumps = 0
+            self._spin_t = None
+            self._spin_n = 0
 
         def start_clock(self):
             pass
 
         def current_time(self):
+            # read at least once per scheduler pass: many passes without simulated time moving is a busy loop
+            if VT.now == self._spin_t:
+                self._spin_n += 1
+                if self._spin_n > SPIN_LIMIT and not self.busy and self.scope is not None:
+                    self.busy = True
+                    self.scope.cancel()
+            else:
+                self._spin_t = VT.now
+                self._spin_n = 0
             return VT.now
 
         def deadline_to_sleep_time(self, deadline):
@@ -920,6 +944,8 @@ if _trio is not None:
             if isinstance(e, (KeyboardInterrupt, SystemExit)):
                 raise
             return None, e
+        if clock.busy and "r" not in box:
+            return None, SimBusyWait(f"the trio scheduler made {SPIN_LIMIT} passes at one simulated instant")
         if clock.deadlocked and "r" not in box:
             return None, SimDeadlock("trio run idle forever")
         return box.get("r"), None
